@@ -28,12 +28,16 @@ NAME_CLASSES = {
     'quote-edge': ('"ab"', "'ab'", '"', 'a"'),
     'nl': ('a\nb',),
     'ws-edge': (' lead', 'trail ', ' both '),
+    'unicode-edge': ('Sensor\u0663', 'Auto\ufeffSave', 'a\u2028b', 'a\u0085b', 'Caf\u00e9', 'Cafe\u0301', '\u212b', 'a\u00a0b', 'x\u00ad'),
+    'rare': ('100%', 'e\u0301', 'a\u200bb', '\U0001f642x', 'n' * 120, 'a\\', '%d{0}', 'A', 'x_1_'),
 }
 
 ATTR_VALUES = (None, True, False, 0, 7, -3, 2.5, -0.25, 100.0, 'x', 'hello world', 'ünï', [], [1, 'a'], [True, [2, 3]],
                {'k': 1}, {'k': {'j': 'q'}}, '', 'it\'s', 'a.b', 1e-07, 12345678901234567890, [None], {'a b': 2.5},
                {'k': [1, {'z': True}]}, [[1, 2], [3, 4]], 0.30000000000000004, -12345, 'say "hi"', 'a, b} c [d', ' lead',
-               {'m': {'n': {'o': -1.5}}}, [False, 'x', 2.25])
+               {'m': {'n': {'o': -1.5}}}, [False, 'x', 2.25], 2 ** 31, 2 ** 63 + 1, -2 ** 40, 9007199254740993, 123456.789,
+               2 ** 53 + 1, 2 ** 63 - 1, -9007199254740993, '90071992547409931234', '-18446744073709551617', '4711', '007', '1e5', 'true', 'null',
+               'x' * 300, [1, 2, 3, 4, 5, 6, 7, 8, 9, 10, 11, 12], {'k%d' % i: i for i in range(12)})
 
 FTYPES = ('Integer', 'Real', 'String')
 FCARDS = ((0, 1), (1, 3), (2, 2), (1, -1), (0, -1))
@@ -317,3 +321,16 @@ def canon_order(model):
     def rec(f):
         return (f[0], tuple((a, b, tuple(rec(k) for k in kids)) for (a, b, kids) in f[1]))
     return rec(model[0])
+
+
+def collision_models():
+    """Models whose distinct names collide under common normalisations (letter case, Unicode
+    composition, surrounding blanks, quotes): every pair must stay two features."""
+    F, R, M = sh.F, sh.R, sh.M
+    pairs = [('Caf\u00e9', 'Cafe\u0301'), ('Wifi', 'WIFI'), ('ab', ' ab'), ('ab', 'ab '), ('a b', 'a  b'), ('\u212b', '\u00c5'),
+             ('x1', 'x\u0661'), ('ab', '"ab"'), ('a_b', 'a-b')]
+    out = []
+    for a, b in pairs:
+        out.append(M(F('Fa', [R(1, 1, [F(a, [R(1, 1, [F('Bb')])])]), R(0, 1, [F(b, [R(0, 1, [F('Dc')])])])]),
+                     [('c1', ('REQUIRES', a, b)), ('c2', ('EXCLUDES', b, 'Dc'))]))
+    return out
